@@ -3,6 +3,7 @@ import Driver.OpsTime
 import Driver.OpsBattery
 import Driver.OpsFail
 import Driver.OpsAcct
+import Driver.OpsProf
 
 namespace Driver
 
@@ -13,6 +14,7 @@ structure DState where
 def step (st : DState) (line : String) : DState × String :=
   match line.splitOn " " with
   | "time" :: args => (st, (opsTime args).getD "bad-op")
+  | "prof" :: args => (st, (opsProf args).getD "bad-op")
   | "acct" :: args =>
       match opsAcct st.acct args with
       | some (b, out) => ({ st with acct := b }, out)
